@@ -335,6 +335,7 @@ class Prop:
         ids = np.arange(dims[0] * dims[-1] * (MAXO[ninf] + 1) ** ninf).reshape((dims[0], dims[-1]) + (MAXO[ninf] + 1,) * ninf)
         cells = list(np.ndindex(*ids.shape))
         views = {}
+        states = []
         value_ops = 0
         rich = False
         requested = set()
@@ -460,13 +461,16 @@ class Prop:
                 rich = rich or self._rich
             value_ops += 1
             events.append(("ret", opi, fingerprint(norm(res))))
-            for s in [P, *factors]:
+            sig = 0
+            for si, s in enumerate([P, *factors]):
                 if any(v is PENDING for v in s._data.values()):
                     fail("pending-left", f"op#{opi} {op}: in-flight marker left in {s.name}")
+                sig ^= hash((si, frozenset(s._data)))
+            states.append(format(sig & 0xFFFFFFFFFFFF, "x"))
         for k, v in stats.items():
             bump(k, v)
         return {"violation": violation, "digest": batch.digest_of(events), "events": len(events),
-                "nontrivial": value_ops >= 3 and rich, "counters": counters}
+                "nontrivial": value_ops >= 3 and rich, "counters": counters, "states": states}
 
     _rich = False
     _case = None
